@@ -265,6 +265,22 @@ class GRUnit(Operation):
         if hidden_seq is None:  # pragma: no cover
             assert False, "should be unreachable"
 
+        # An in-place update of an operand, made after the forward pass, re-routes
+        # `self.variables` through placeholders holding the values that the forward
+        # pass used: backprop must read (and send gradients to) those
+        (
+            self.X,
+            self.Uz,
+            self.Wz,
+            self.bz,
+            self.Ur,
+            self.Wr,
+            self.br,
+            self.Uh,
+            self.Wh,
+            self.bh,
+        ) = self.variables
+
         s = hidden_seq.data[:-1]
         z = self._z
         r = self._r
